@@ -332,12 +332,12 @@ for n, t in [("c01_read_start", "quick"), ("c01_read_cross_cluster", "quick"), (
 UW_FILE = [("find_data_on_disk", r".", 5), ("VolumeManager", r"while written < bytes_to_write|while space > 0", 5)]
 UW_WRITE = UW_ALLOC + [("vk_fsop", r"pos < 2048", 2050)]
 _wr = "VolumeManager::write: bytes in range == payload, other file bytes unchanged, length/offset, chain growth from free clusters linked after the tail, FAT frame, only FAT + own clusters written, other open file untouched, dirty set, cursor cache consistent"
-for n, t, p in [("c01_write_middle", "quick", "C01"), ("c01_write_block_start_partial", "quick", "C01"), ("c01_write_cross_end_midblock", "quick", "C01"), ("c01_write_extend_one", "thorough", "C01"),
+for n, t, p in [("c01_write_middle", "thorough", "C01"), ("c01_write_block_start_partial", "thorough", "C01"), ("c01_write_cross_end_midblock", "quick", "C01"), ("c01_write_extend_one", "thorough", "C01"),
              ("c01_write_extend_stale_cursor", "thorough", "C01"), ("c01_write_cross_end_in_last_block", "quick", "C01"), ("c01_write_first_cluster", "thorough", "C01"), ("c01_write_full_block", "thorough", "C01"), ("c01_write_extend_within_cluster", "thorough", "C01"),
              ("c01_write_extend_two", "thorough", "C01"), ("c01_write_backward_chain", "thorough", "C01"), ("c01_write_empty_buffer", "thorough", "C01"),
              ("c05_write_last_free_cluster", "thorough", "C05"), ("c05_write_disk_full_partial", "thorough", "C05"), ("c05_write_disk_full_none", "thorough", "C05"),
              ("c07_write_readonly_refused", "quick", "C07")]:
-    H(p, "vk_fsop", n, tier=t, mem_est=18, desc=_wr, bounds="payload (<=600 B), old file contents and root block fully symbolic; chain/size/offset/cursor/length/free map concrete per instance; alloc_cluster replaced by the abstract allocator stub (contract = C05 allocator harnesses)", kani_args=["-Z", "stubbing"], unwindset=UW_ALLOC + UW_FILE, timeout=2400, cost=4, mem_gb=30)
+    H(p, "vk_fsop", n, tier=t, mem_est=12, desc=_wr, bounds="payload (<=600 B), old file contents and root block fully symbolic; chain/size/offset/cursor/length/free map concrete per instance; alloc_cluster replaced by the abstract allocator stub (contract = C05 allocator harnesses)", kani_args=["-Z", "stubbing"], unwindset=UW_ALLOC + UW_FILE, timeout=2400, cost=4, mem_gb=30)
 PROPS["C07"] = dict(bounds="(in progress)", outside="")
 
 UW_DIR = [("memcmp", r".", 12),
@@ -360,13 +360,13 @@ H("C07", "vk_fsop", "c07_open_a_append", desc=_od, bounds="target A, mode append
 H("C07", "vk_fsop", "c07_open_a_trunc", tier="thorough", desc=_od, bounds="target A, mode trunc", unwindset=UW_OPEN6, timeout=3600, cost=3, mem_gb=40)
 H("C07", "vk_fsop", "c07_open_a_create", desc=_od, bounds="target A, mode create", unwindset=UW_OPEN6, timeout=1500, cost=3, mem_gb=20)
 H("C07", "vk_fsop", "c07_open_a_create_or_trunc", tier="thorough", desc=_od, bounds="target A, mode create_or_trunc", unwindset=UW_OPEN6, timeout=3600, cost=3, mem_gb=40)
-H("C07", "vk_fsop", "c07_open_a_create_or_append", desc=_od, bounds="target A, mode create_or_append", unwindset=UW_OPEN6, timeout=1500, cost=3, mem_gb=20)
+H("C07", "vk_fsop", "c07_open_a_create_or_append", tier="thorough", mem_est=30, desc=_od, bounds="target A, mode create_or_append", unwindset=UW_OPEN6, timeout=1500, cost=3, mem_gb=44)
 H("C07", "vk_fsop", "c07_open_r_ro", desc=_od, bounds="target R, mode ro", unwindset=UW_OPEN6, timeout=1500, cost=3, mem_gb=20)
 H("C07", "vk_fsop", "c07_open_r_append", desc=_od, bounds="target R, mode append", unwindset=UW_OPEN6, timeout=1500, cost=3, mem_gb=20)
 H("C07", "vk_fsop", "c07_open_r_trunc", tier="thorough", desc=_od, bounds="target R, mode trunc", unwindset=UW_OPEN6, timeout=1500, cost=3, mem_gb=20)
 H("C07", "vk_fsop", "c07_open_r_create", tier="thorough", desc=_od, bounds="target R, mode create", unwindset=UW_OPEN6, timeout=1500, cost=3, mem_gb=20)
-H("C07", "vk_fsop", "c07_open_r_create_or_trunc", desc=_od, bounds="target R, mode create_or_trunc", unwindset=UW_OPEN6, timeout=1500, cost=3, mem_gb=20)
-H("C07", "vk_fsop", "c07_open_r_create_or_append", desc=_od, bounds="target R, mode create_or_append", unwindset=UW_OPEN6, timeout=1500, cost=3, mem_gb=20)
+H("C07", "vk_fsop", "c07_open_r_create_or_trunc", tier="thorough", mem_est=30, desc=_od, bounds="target R, mode create_or_trunc", unwindset=UW_OPEN6, timeout=1500, cost=3, mem_gb=44)
+H("C07", "vk_fsop", "c07_open_r_create_or_append", tier="thorough", mem_est=30, desc=_od, bounds="target R, mode create_or_append", unwindset=UW_OPEN6, timeout=1500, cost=3, mem_gb=44)
 H("C07", "vk_fsop", "c07_open_d_ro", desc=_od, bounds="target D, mode ro", unwindset=UW_OPEN6, timeout=1500, cost=3, mem_gb=20)
 H("C07", "vk_fsop", "c07_open_d_append", tier="thorough", desc=_od, bounds="target D, mode append", unwindset=UW_OPEN6, timeout=1500, cost=3, mem_gb=20)
 H("C07", "vk_fsop", "c07_open_d_trunc", tier="thorough", desc=_od, bounds="target D, mode trunc", unwindset=UW_OPEN6, timeout=1500, cost=3, mem_gb=20)
@@ -532,13 +532,13 @@ PROPS["C14"]["bounds"] += "; commands (and the CMD55 prefix) issued while the ca
 # ---------------------------------------------------------------------------
 # cross-registrations: harnesses whose assertions also decide clauses of other properties
 # ---------------------------------------------------------------------------
-H("C02", "vk_fsop", "c01_write_middle", mem_est=18, desc="write marks the file dirty (flush/close then rewrite the entry), sets mtime = clock, archive bit, keeps ctime", bounds="see C01", kani_args=["-Z", "stubbing"], unwindset=UW_ALLOC + UW_FILE, timeout=2400, cost=4, mem_gb=30)
+H("C02", "vk_fsop", "c01_write_cross_end_midblock", mem_est=12, desc="write marks the file dirty (flush/close then rewrite the entry), sets mtime = clock, archive bit, keeps ctime", bounds="see C01", kani_args=["-Z", "stubbing"], unwindset=UW_ALLOC + UW_FILE, timeout=2400, cost=4, mem_gb=30)
 for pr in ("C02", "C04"):
     H(pr, "vk_fat", "c10_crash_make_dir16", desc="mkdir writes only the parent directory block, the FAT and the new directory's cluster: the data cluster physically after it and other files' clusters are never written; other directory entries unchanged", bounds="see C10", unwindset=UW_CRASH, timeout=1800, cost=4, mem_gb=24)
 H("C03", "vk_fsop", "c01_locate_eof_from_start", desc="after EndOfFile the cursor rests on the chain's last cluster, so write() links the newly allocated cluster behind the tail (chain stays a single well-formed chain)", bounds="see C01", timeout=900, cost=2, mem_gb=16)
 H("C03", "vk_fsop", "c01_locate_eof_from_cache", desc="same, starting from a cached cursor", bounds="see C01", timeout=900, cost=2, mem_gb=16)
-for n in ["c01_write_cross_end_midblock", "c01_write_block_start_partial"]:
-    H("C04", "vk_fsop", n, mem_est=18, desc="a write changes only the bytes of the range it was asked to write: the rest of a partially written block is preserved (read-modify-write), other clusters and the directory are not written", bounds="see C01", kani_args=["-Z", "stubbing"], unwindset=UW_ALLOC + UW_FILE, timeout=2400, cost=4, mem_gb=30)
+for n in ["c01_write_cross_end_midblock", "c01_write_cross_end_in_last_block"]:
+    H("C04", "vk_fsop", n, mem_est=12, desc="a write changes only the bytes of the range it was asked to write: the rest of a partially written block is preserved (read-modify-write), other clusters and the directory are not written", bounds="see C01", kani_args=["-Z", "stubbing"], unwindset=UW_ALLOC + UW_FILE, timeout=2400, cost=4, mem_gb=30)
 H("C04", "vk_fat", "c03_new_entry_root16", desc="a full fixed-size FAT16 root reports NotEnoughSpace and writes nothing - in particular not into the first data cluster behind the root region", bounds="see C03", unwindset=UW_DIR, timeout=2400, cost=4, mem_gb=30)
 H("C16", "vk_fat", "c05_alloc16_a_38_p3_h4", desc="taking the last free cluster leaves the next-free hint unknown or inside the volume", bounds="see C05", unwindset=UW_ALLOC, timeout=600, cost=2, mem_gb=16)
 H("C16", "vk_vm", "c15_mount_correct_p0", desc="the second FAT is located at first FAT + FATSz with the specification's FATSz rule (16-bit field if non-zero), so FAT updates mirror into the real second copy", bounds="see C15", timeout=1800, cost=3)
